@@ -77,9 +77,14 @@ def handleItem (gres rres : String) (item : String) : ItemOut :=
     let ops := if beh == "d" then defaultOps kind method else parseBeh beh
     let (s', recs) := logger (fun s => runOps s ops) c {}
     let trace := join (s'.events ++ ["H"] ++ recs.map (fun _ => "R")) "."
-    let spec := match expected (happened c s') with
+    -- for a status outside 2xx-5xx the property fixes everything but the level: one record with the status actually
+    -- sent, method, host, path and message; the level is printed as `*` (not compared)
+    let h := happened c s'
+    let spec := match expected h with
       | some rs => showRecords rs s'.panicked none
-      | none => "skip"
+      | none =>
+        "1:" ++ join ["*", toHex (message h.resolution h.remoteIP), toString h.status, h.method, toHex h.host, toHex h.path, "-"] ":" ++
+          ":" ++ (if s'.panicked then "1" else "0")
     let lvlTag := match recs.getLast? with
       | some r => ["lvl-" ++ r.level.name] ++ (if r.location.isSome then ["location"] else [])
       | none => ["no-record"]
